@@ -691,6 +691,30 @@ def run_check(pid, tier, seed):
             if any(v[0] == dst for v in violations):
                 continue  # several shards shrank to the same case
             bad, outs = confirm(binary, dst, env, extra_args)
+            hist = os.path.join(s.outdir, "found-history.case")
+            if not bad and case == found and os.path.exists(hist):
+                # the failure may need process-wide library state left by earlier cases of its shard (drop-in
+                # directory list, restrictions): replay it behind the cases that ran before it, each attempt in a
+                # fresh process, and minimise that history
+                hb, _ = confirm(binary, hist, env, extra_args)
+                if hb:
+                    md = os.path.join(s.outdir, "hist-min")
+                    try:
+                        subprocess.run([binary, "--replay", hist, "--minimise", "--out", md, "--known", KNOWN] + list(extra_args),
+                                       env=env, stdout=subprocess.DEVNULL, stderr=subprocess.DEVNULL, cwd=s.outdir,
+                                       timeout=cfg.get("shrink_timeout", 180))
+                    except subprocess.TimeoutExpired:
+                        pass
+                    mf = os.path.join(md, "found.case")
+                    os.remove(dst)
+                    dst = save_found(pid, mf if os.path.exists(mf) else hist)
+                    if any(v[0] == dst for v in violations):
+                        continue
+                    bad, outs = confirm(binary, dst, env, extra_args)
+                    if not bad and os.path.exists(mf):
+                        os.remove(dst)
+                        dst = save_found(pid, hist)
+                        bad, outs = confirm(binary, dst, env, extra_args)
             if bad:
                 violations.append((dst, outs[0][1]))
             else:
